@@ -135,6 +135,11 @@ def setup_term(it, cfg):
     rec, proc, clk = base_setup(it, cfg)
     tmap = make_value(it, "tmap", ("Map", "Int", "Str"))
     it.ctx.ghost["tmap"] = tmap
+    # device-number arithmetic is opaque here: the tty_nr field IS the key of the map (recomposing it through
+    # os.major/os.minor/os.makedev is not known to give the same number: the kernel keeps minor bits above bit 19)
+    for fn, ar in (("makedev", 2), ("major", 1), ("minor", 1)):
+        it.ctx.uf(f"py_{fn}", ["Int"] * ar, "Int")
+        it.env_over[f"os.{fn}"] = EnvFunc(fn, (lambda name: lambda it2, *a: smt.app(f"py_{name}", "Int", *[it2.term(x) for x in a]))(fn))
     return {"args": {"self": proc}, "spec": {"rec": rec, "F": rec["F"], "tmap": tmap}}
 
 
